@@ -62,7 +62,8 @@ def pairs(A):
                 ("MIN_2", "MIN", 2), ("MAX_n1", "MAX", -1), ("MAX_1", "MAX", 1), ("7_0", 7, 0), ("MIN_0", "MIN", 0),
                 ("MIN_MIN", "MIN", "MIN"), ("5_MIN", 5, "MIN"), ("n1_MIN", -1, "MIN"), ("0_0", 0, 0), ("MIN_n2", "MIN", -2),
                 ("MIN_n3", "MIN", -3), ("MAX_MIN", "MAX", "MIN"), ("0_n5", 0, -5),
-                ("MAXm1_3", ("MAX", -1), 3), ("MAXm1_4", ("MAX", -1), 4), ("MINp1_n3", ("MIN", 1), -3), ("MAXm2_MAX", ("MAX", -2), "MAX")]
+                ("MAXm1_3", ("MAX", -1), 3), ("MAXm1_4", ("MAX", -1), 4), ("MINp1_n3", ("MIN", 1), -3), ("MAXm2_MAX", ("MAX", -2), "MAX"),
+                ("MIN_3", "MIN", 3), ("MIN_7", "MIN", 7), ("MINp1_4", ("MIN", 1), 4), ("MINp2_5", ("MIN", 2), 5), ("n1_2", -1, 2), ("7_n10", 7, -10)]
     return [("7_2", 7, 2), ("6_3", 6, 3), ("0_5", 0, 5), ("2_7", 2, 7), ("MAX_1", "MAX", 1), ("MAX_MAX", "MAX", "MAX"),
             ("MAX_2", "MAX", 2), ("7_0", 7, 0), ("0_0", 0, 0), ("MAXm1_3", ("MAX", -1), 3), ("MAXm1_4", ("MAX", -1), 4),
             ("MAXm2_MAX", ("MAX", -2), "MAX"), ("MAXm1_MAX", ("MAX", -1), "MAX")]
